@@ -54,7 +54,7 @@ EOP
 [ "$(grep -c 'rand()' "$RT/map.go")" = "9" ] && [ "$(grep -c 'uint32(rand())' "$RT/map.go")" = "5" ] \
   && grep -q 'r := uintptr(rand())' "$RT/map.go" && [ "$(grep -c 'r := int(rand())' "$RT/map.go")" = "2" ] \
   || fail2 "runtime/map.go of this toolchain has an unexpected shape"
-sed 's/uint32(rand())/uint32(verifMapRand())/; s/r := uintptr(rand())/r := uintptr(verifMapRand())/; s/r := int(rand())/r := int(verifMapRand() >> 1)/' "$RT/map.go" > "$TMP/map.go"
+sed 's/h\.hash0 = uint32(rand())/h.hash0 = verifHash0()/; s/uint32(rand())/uint32(verifMapRand())/; s/r := uintptr(rand())/r := uintptr(verifIterStart(h))/; s/r := int(rand())/r := int(verifIterStart(h) >> 1)/' "$RT/map.go" > "$TMP/map.go"
 cat >> "$TMP/map.go" <<'EOP'
 
 // verif: every random draw of the map implementation (hash seed per map,
@@ -62,10 +62,34 @@ cat >> "$TMP/map.go" <<'EOP'
 // build overlay for the simulation worker (GOMAXPROCS=1, one task at a time).
 var verifMapState uint64 = 0x6c6f726177616e21
 
-// verifSetMapSeed re-seeds the generator (before every simulated run).
+// verifRunSeed: the hash seed of every map and the starting point of every
+// iteration are functions of this value and of the map itself (its seed, its
+// size), NOT of how many maps the process has made so far: the standard
+// library builds caches lazily (encoding/json, reflect, fmt), so the number of
+// maps made before a given point differs between the first run of a process
+// and a later one, and a position in one global sequence would differ with it.
+var verifRunSeed uint64 = 0x6c6f726177616e21
+
+// verifSetMapSeed re-seeds both (before every simulated run).
 //
 //go:linkname verifSetMapSeed
-func verifSetMapSeed(s uint64) { verifMapState = s }
+func verifSetMapSeed(s uint64) { verifMapState = s; verifRunSeed = s }
+
+func verifMix(z uint64) uint64 {
+	z += 0x9e3779b97f4a7c15
+	z = (z ^ (z >> 30)) * 0xbf58476d1ce4e5b9
+	z = (z ^ (z >> 27)) * 0x94d049bb133111eb
+	return z ^ (z >> 31)
+}
+
+// verifHash0: one hash seed for all maps of a run.
+func verifHash0() uint32 { return uint32(verifMix(verifRunSeed ^ 0x68617368)) }
+
+// verifIterStart: where an iteration starts (bucket and offset) follows from
+// the run and from the map's seed and size.
+func verifIterStart(h *hmap) uint64 {
+	return verifMix(verifRunSeed ^ uint64(h.hash0)<<7 ^ uint64(h.count)*0x9e3779b97f4a7c15 ^ uint64(h.B)<<56)
+}
 
 func verifMapRand() uint64 {
 	verifMapState += 0x9e3779b97f4a7c15
@@ -74,10 +98,33 @@ func verifMapRand() uint64 {
 	z = (z ^ (z >> 27)) * 0x94d049bb133111eb
 	return z ^ (z >> 31)
 }
+
+// verifMapShrink gives an EMPTY map the shape of a freshly made one (no
+// bucket array, a new hash seed): the worker rewinds the package-level maps of
+// the library between runs, and a map that grew in an earlier run of the
+// process would otherwise keep its larger bucket array - and with it another
+// iteration order for the same keys - in the next one.
+//
+//go:linkname verifMapShrink
+func verifMapShrink(m unsafe.Pointer) {
+	h := (*hmap)(m)
+	if h == nil || h.count != 0 || h.flags&hashWriting != 0 {
+		return
+	}
+	h.B = 0
+	h.noverflow = 0
+	h.buckets = nil
+	h.oldbuckets = nil
+	h.nevacuate = 0
+	h.extra = nil
+	h.flags = 0
+	h.hash0 = verifHash0()
+}
 EOP
+grep -q 'oldIterator' "$RT/map.go" && grep -q 'nevacuate  uintptr' "$RT/map.go" && grep -q 'extra \*mapextra' "$RT/map.go" || fail2 "runtime/map.go: hmap has an unexpected shape"
 for f in map_fast32.go map_fast64.go map_faststr.go; do
   [ "$(grep -c 'rand()' "$RT/$f")" = "1" ] && grep -q 'h.hash0 = uint32(rand())' "$RT/$f" || fail2 "runtime/$f of this toolchain has an unexpected shape"
-  sed 's/uint32(rand())/uint32(verifMapRand())/' "$RT/$f" > "$TMP/$f"
+  sed 's/h\.hash0 = uint32(rand())/h.hash0 = verifHash0()/' "$RT/$f" > "$TMP/$f"
 done
 [ "$(grep -c 'bootstrapRand()' "$RT/alg.go")" = "2" ] || fail2 "runtime/alg.go of this toolchain has an unexpected shape"
 sed 's/bootstrapRand()/verifMapRand()/' "$RT/alg.go" > "$TMP/alg.go"
